@@ -745,7 +745,7 @@ fn main() {
                         coverage: json!({
                             "states": cn, "transitions": cn * 2, "traces_validated_against_impl": cn, "evaluations": cn, "distinct_nontrivial": cn,
                             "exhaustive": true,
-                            "rule": "every stream <any request of the C12 alphabet> <quit | quitq | undefined opcode> <another request>, sent in one segment so that bytes stay unconsumed when the server closes; then a fresh connection sends one noop: exactly one response, the noop's own opcode and opaque",
+                            "rule": "every stream <any request of the C12 alphabet> <quit | quitq | undefined opcode> <another request>, sent in one segment so that bytes stay unconsumed when the server closes; then a fresh connection sends one noop: exactly one response, the noop's own opcode and opaque; plus clients arriving at a full server (connection limit 1 and 2, silent or sending at once, four request kinds): no frame before a request was sent, and for the request sent at most one response, with its own opcode and opaque",
                         }),
                         assumptions: vec![],
                         violations: cviol.into_iter().map(|(s, w)| Violation { signature: s, what: w, replay: json!({"engine": "c12-next-connection"}) }).collect(),
